@@ -13,6 +13,7 @@ import (
 	"github.com/nspcc-dev/neo-go/pkg/smartcontract"
 	"github.com/nspcc-dev/neo-go/pkg/smartcontract/manifest"
 	"github.com/nspcc-dev/neo-go/pkg/util"
+	"github.com/nspcc-dev/neo-go/pkg/vm/stackitem"
 )
 
 func init() { register("ManifestConsts", genManifestConsts) }
@@ -43,6 +44,7 @@ func genManifestConsts(repo string) (string, error) {
 	fmt.Fprintf(&b, "/-- length of PublicKey.Bytes() of a finite point. -/\ndef compressedKeyLen : Nat := %d\n", len(k.PublicKey().Bytes()))
 	fmt.Fprintf(&b, "def permissionTypes : List Nat := [%d, %d, %d]\n", int(manifest.PermissionWildcard), int(manifest.PermissionHash), int(manifest.PermissionGroup))
 	fmt.Fprintf(&b, "def maxManifestSize : Nat := %d\n", manifest.MaxManifestSize)
+	fmt.Fprintf(&b, "/-- stackitem.MaxSerialized (items per serialised item) and stackitem.MaxSize (bytes). -/\ndef maxSerialized : Nat := %d\ndef maxItemSize : Nat := %d\n", stackitem.MaxSerialized, stackitem.MaxSize)
 	b.WriteString("\nend NeoModel.Generated.ManifestConsts\n")
 	return b.String(), nil
 }
